@@ -129,8 +129,8 @@ def args_intact(rep, prog, O, f):
 
 def run(prog, rep, tier):
     # private helpers (leading underscore) are analysed inside the public APIs that call them
-    apis = [f for f in prog.funcs.values() if "random_state" in f.params and f.module.name.startswith("sempler.")
-            and f.module.name != "sempler.semi" and (not f.name.startswith("_") or f.name.startswith("__") or f.qname in EXPECTED)]
+    apis = [f for f in prog.funcs.values() if "random_state" in f.params and f.public_module.name.startswith("sempler.")
+            and f.public_module.name != "sempler.semi" and (not f.name.startswith("_") or f.name.startswith("__") or f.qname in EXPECTED)]
     have = {f.qname for f in apis}
     for q in EXPECTED:
         if q not in have:
@@ -146,7 +146,7 @@ def run(prog, rep, tier):
     from .closures import factory_closure
     from .. import api
     n_fact = 0
-    for f in sorted((g for g in prog.funcs.values() if g.module.name == "sempler.noise" and not g.name.startswith("_") and g.cls is None), key=lambda g: g.qname):
+    for f in sorted((g for g in prog.funcs.values() if g.public_module.name == "sempler.noise" and not g.name.startswith("_") and g.cls is None), key=lambda g: g.qname):
         try:
             S_, f_, clo, res, facts = factory_closure(prog, f.qname)
         except Inconclusive:
